@@ -155,3 +155,5 @@ def check(ck: Check) -> None:
     ck.run("R06.7", "the id is over the header span", lambda: r07_5(ck))
     from .c05 import r05_1
     ck.run("R05.1", "the id is tested against the target", lambda: r05_1(ck))
+    from .c01 import r01_1
+    ck.run("R01.1", "decoded bytes always go through both validators before they are applied (no shortcut by id)", lambda: r01_1(ck))
